@@ -567,7 +567,33 @@ def r6b(ctx):
         if f is None:
             continue
         if name == 'setdefault':
-            ctx.ok(f'Meta.{name}', 'inserts at most one key')
+            # dict contract, partially evaluated: the value is stored exactly when the (mapped) key is absent, through the
+            # validating __setitem__, and what is returned is the stored entry
+            probs = []
+            for cname, key, stored in (('RegionMeta', 'label', 'label'), ('RegionVisual', 'point', 'symbol')):
+                sci = m.cls(cname)
+                if sci is None:
+                    continue
+                rec = []
+                ev = Evaluator(m, hooks={'super:__setitem__': lambda e, a, k, rec=rec: (
+                    rec.append(([show(c) for c in k.get('__pc__', [])], show(a[1]), show(a[2]))), Const(None))[1]})
+                o = Obj(cname, {}, 'self', sci)
+                out = ev.run(f, [o, Const(key), Obj('str', {}, 'V')], {})
+                if out.raises:
+                    probs.append(f'{cname}.setdefault({key!r}, V) can raise {sorted({n for _, n, _ in out.raises})}')
+                    continue
+                want_pc = f"('{stored}' notin self)"
+                if len(rec) != 1 or rec[0][1] != f"'{stored}'" or rec[0][2] != 'V' or want_pc not in rec[0][0] \
+                        or any(c != want_pc and 'self' in c for c in rec[0][0]):
+                    probs.append(f'{cname}.setdefault({key!r}, V) stores {[(r[1], r[2], "when " + " and ".join(r[0])) for r in rec]}; '
+                                 f'the dict contract stores ({stored!r}, V) exactly when {stored!r} is absent')
+                rets = {show(v, 80) for _, v in out.returns}
+                if rets != {f"getitem(self, '{stored}')"}:
+                    probs.append(f'{cname}.setdefault({key!r}, V) returns {sorted(rets)}, not the stored entry')
+            if probs:
+                ctx.bad(f'Meta.{name}', 'setdefault-contract', probs[0], f.loc())
+            else:
+                ctx.ok(f'Meta.{name}', 'stores (mapped key, value) exactly when the key is absent; returns the entry')
             continue
         probs = []
         for other, want in probes:
